@@ -3,6 +3,31 @@ package main
 
 func init() {
 	targets = append(targets,
+		// ---- C04: isolation.checkPass, ONE iteration of `for _, rule := range rules` ----
+		// result: LReturn (false, 1 = this rule, snapshot) | LContinue curCount; the gauge read enters as `gauge`
+		target{Dir: "core/isolation", Func: "checkPass", Name: "isolation_checkPass_step", LoopBody: 1,
+			Hints: map[string]hint{
+				"ctx.StatNode":                  {"", "opaque"},
+				"ctx.Input.BatchCount":          {"batchCount", "uint32"},
+				"statNode.CurrentConcurrency()": {"gauge", "int32"}},
+			RangeVars: map[string]string{"rule": "*Rule"},
+			NilRes:    []string{"*Rule"}, Errs: map[string]int{"rule": 1}},
+		// ---- C20: outlier.checkAllNodes, ONE iteration of `for address, breaker := range nodeBreaks` ----
+		// result: the appends performed, as action trace: 1 = halfs, 2 = outliers, 3 = filters (in execution order)
+		target{Dir: "core/outlier", Func: "checkAllNodes", Name: "outlier_checkAllNodes_step", LoopBody: 1,
+			Hints: map[string]hint{
+				"ctx.Resource.Name()":                 {"", "opaque"},
+				"getNodeBreakersOfResource(resource)": {"", "opaque"},
+				"getOutlierRuleOfResource(resource)":  {"", "ptr:Rule"},
+				"len(nodeBreaks)":                     {"nodeCount", "int"},
+				"breaker.TryPass(ctx)":                {"try_pass", "bool"},
+				"breaker.CurrentState()":              {"state", "int32"},
+				"len(filters)":                        {"filters_len", "int"}},
+			RangeVars: map[string]string{"address": "string", "breaker": "circuitbreaker.CircuitBreaker"},
+			Acts: map[string]act{
+				"append(halfs, address)":    {Tag: 1},
+				"append(outliers, address)": {Tag: 2},
+				"append(filters, address)":  {Tag: 3}}},
 		// ---- statistic-node getters (C08; used by C02 / C07): the float arithmetic around the window sums ----
 		// BaseStatNode.GetMaxAvg: float64(max) * float64(sampleCount) / float64(intervalMs) * 1000.0
 		target{Dir: "core/stat", Func: "BaseStatNode.GetMaxAvg", Name: "node_GetMaxAvg",
